@@ -1,6 +1,6 @@
 //! Set history engine binary (C07, C02, C05, C09, C10, C12, C15, C19 — Set side).
 use engines::common::Ctx;
-use engines::fam::{Copyf, Large, NoDrop, Raw, Track, Zst};
+use engines::fam::{AlignF, Copyf, Large, NoDrop, Raw, TinyF, Track, WordF, Zst};
 use engines::sethist::{history, required_rows};
 
 fn main() {
@@ -16,13 +16,23 @@ fn main() {
             "track" => &[0, 1, 2, 3, 4, 5, 8, 16, 32],
             "large" => &[1, 2, 4],
             "copy" => &[0, 1, 2, 3, 4, 8, 40, 70],
+            "tiny" => &[1, 3, 8],
+            "word" => &[0, 2, 8],
+            "align" => &[1, 2, 5],
             _ => &[0, 1, 2, 3, 4, 8],
         };
         let usable: Vec<usize> = caps.iter().copied().filter(|c| supported.contains(c)).collect();
-        let n = if usable.is_empty() { supported[0] } else { usable[rng.usize_below(usable.len())] };
+        let mut n = if usable.is_empty() { supported[0] } else { usable[rng.usize_below(usable.len())] };
+        // slot numbers beyond one byte: rarely (a history at this capacity costs as much as hundreds of small ones)
+        if fam == "copy" && caps.contains(&70) && !cx.args.flag("light") && rng.chance(1, 1200) {
+            n = 300;
+        }
         match fam.as_str() {
             "track" => engines::dispatch_n!(n, [0, 1, 2, 3, 4, 5, 8, 16, 32], history, Track, (cx, hist, rng, max_steps)),
-            "copy" => engines::dispatch_n!(n, [0, 1, 2, 3, 4, 8, 40, 70], history, Copyf, (cx, hist, rng, max_steps)),
+            "copy" => engines::dispatch_n!(n, [0, 1, 2, 3, 4, 8, 40, 70, 300], history, Copyf, (cx, hist, rng, max_steps)),
+            "tiny" => engines::dispatch_n!(n, [1, 3, 8], history, TinyF, (cx, hist, rng, max_steps)),
+            "word" => engines::dispatch_n!(n, [0, 2, 8], history, WordF, (cx, hist, rng, max_steps)),
+            "align" => engines::dispatch_n!(n, [1, 2, 5], history, AlignF, (cx, hist, rng, max_steps)),
             "raw" => engines::dispatch_n!(n, [0, 1, 2, 3, 4, 8], history, Raw, (cx, hist, rng, max_steps)),
             "large" => engines::dispatch_n!(n, [1, 2, 4], history, Large, (cx, hist, rng, max_steps)),
             "zst" => engines::dispatch_n!(n, [0, 1, 2, 3, 4, 8], history, Zst, (cx, hist, rng, max_steps)),
